@@ -272,6 +272,16 @@ func (loc *Location) ExecAction(ctx *Context, bs Bindings, a Action) (interface{
 
 	Log(INFO, ctx, "core.ExecAction", "action", a)
 
+	// The actions of a rule run concurrently (see WorkWalk) and are
+	// given the same bindings.  Work on a private copy so that
+	// replacing the event below can't race with another action that
+	// is reading the shared map.
+	own := make(Bindings, len(bs))
+	for k, v := range bs {
+		own[k] = v
+	}
+	bs = own
+
 	f, err := loc.getActionFunc(ctx, bs, a)
 
 	if nil != err {
